@@ -261,6 +261,9 @@ func (s *TunnelShadow) Advance(e *Env, blk *world.BlockRecord) {
 		sh.Advance(e, blk)
 	}
 	curGroup := uint64(e.App().BandtssKeeper.GetCurrentGroup(ctx).GroupID)
+	// governance runs before the tunnel module in the end block: a parameter change executed in this block already governs this
+	// block's packet production (the transactions above were judged with the parameters in force before)
+	s.Params = e.App().TunnelKeeper.GetParams(ctx)
 	for _, id := range s.sortedIDs() {
 		t := s.Tunnels[id]
 		o, seen := outcome[id]
